@@ -211,7 +211,7 @@ func (w *revWalk) value(x any) string {
 // ---- shape statistics of a description (tags, non-triviality) ----
 
 type revStats struct {
-	nodes, stacks, conds, maxChain int
+	nodes, stacks, conds, maxChain                                                 int
 	redundant, mutex, alias, condStack, empty, zero, nils, fwd, paren, not, nested int
 }
 
@@ -605,11 +605,11 @@ func revWrappers() []func(id string, child *Node) *Node {
 		}
 	}
 	return []func(string, *Node) *Node{
-		mk("AND", 0, "", true),   // plain, mutex
-		mk("OR", 0, "", false),   // plain
-		mk("AND", 1, "", true),   // parenthetical
-		mk("NOT", 0, "", false),  // NOT
-		mk("OR", 32, "", true),   // plain with forward indices
+		mk("AND", 0, "", true),      // plain, mutex
+		mk("OR", 0, "", false),      // plain
+		mk("AND", 1, "", true),      // parenthetical
+		mk("NOT", 0, "", false),     // NOT
+		mk("OR", 32, "", true),      // plain with forward indices
 		mk("AND", 0, "aval", false), // plain, typed as an alias
 	}
 }
